@@ -33,14 +33,20 @@ def all_names(recipe_or_list):
 
 
 def dual_val(val, wrt, wrt2=None):
-    """valuation with dual numbers seeded on `wrt` (and nested on wrt2)"""
-    out = {}
-    for n, v in val.items():
-        if wrt2 is None:
-            out[n] = Dual(v, 1.0 if n == wrt else 0.0)
-        else:
-            inner = Dual(v, 1.0 if n == wrt2 else 0.0)
-            out[n] = Dual(inner, Dual(1.0 if n == wrt else 0.0, 0.0))
+    """valuation with dual numbers seeded on `wrt` (and nested on wrt2).
+    Only the differentiation variables become dual numbers; every other name
+    (other variables, symbolic constants, parameters) stays a plain number, so
+    constant exponents / coefficients use the constant rules."""
+    out = dict(val)
+    if wrt2 is None:
+        if wrt in val:
+            out[wrt] = Dual(val[wrt], 1.0)
+        return out
+    for n in {wrt, wrt2}:
+        if n not in val:
+            continue
+        inner = Dual(val[n], 1.0 if n == wrt2 else 0.0)
+        out[n] = Dual(inner, Dual(1.0 if n == wrt else 0.0, 0.0))
     return out
 
 
@@ -80,6 +86,8 @@ def shape(r, depth=6):
     for e in r[1:]:
         if isinstance(e, str):
             parts.append(e)
+        elif isinstance(e, tuple) and e and not isinstance(e[0], str):
+            parts.append("#")
         elif isinstance(e, (tuple, list)):
             parts.append(shape(e, depth - 1))
     return k + "(" + ",".join(parts) + ")"
@@ -215,6 +223,7 @@ def vec_nodes(n=3, full=True):
     ]
     if n >= 3:
         out.append(("dot", ("slice", v, 0, n - 1, None), ("slice", v, 1, n, None)))
+        out.append(("dot", ("slice", v, 0, n, None), ("slice", v, None, None, -1)))
     if full:
         A = [[1.0, 2.0], [0.0, ("sym", "a11")], [3.0, -1.0]]
         M = ("mat", "A", 2, 2)
@@ -246,6 +255,9 @@ def vec_nodes(n=3, full=True):
             ("msum", ("mbin", "*", M, ("mT", M))),
             ("msum", ("mat", "S", 2, 2, True)),
             ("fro", M),
+            ("fro", ("mat", "S", 2, 2, True)),
+            ("fro", ("mT", ("mat", "B", 2, 3))),
+            ("msum", ("mslice", ("mat", "B", 2, 3), (0, 2, None), (1, 3, None))),
             ("trace", M),
             ("trace", ("mat", "S", 2, 2, True), "func"),
             ("vsum", ("mrow", M, 1)),
@@ -395,3 +407,77 @@ def dec(s):
 
 def chunks(lst, n):
     return [lst[i:i + n] for i in range(0, len(lst), n)]
+
+
+# --------------------------------------------------------------------------
+# deciding one obligation
+# --------------------------------------------------------------------------
+def decide(claim, pc, dom, what, sig, payload, allv, qt):
+    """valid? -> proved / violation(with model values) / inconclusive.
+    `claim` may be a list of claims: the conjunction is tried first and, when
+    the solver gives up on it, each conjunct separately."""
+    import z3
+    from vf.engine import smt
+    from vf.engine.sym import sbool_term
+    claims = None
+    if isinstance(claim, (list, tuple)):
+        claims = [sbool_term(c) for c in claim]
+        claim = z3.And(claims) if len(claims) != 1 else claims[0]
+        if not claims:
+            return proved(what)
+    v = smt.valid(claim, pc, dom, timeout_ms=qt if not claims or len(claims) == 1 else min(qt, 5000))
+    if v.status == "unknown" and claims and len(claims) > 1:
+        worst = "unsat"
+        for c in claims:
+            v = smt.valid(c, pc, dom, timeout_ms=qt)
+            if v.status == "sat":
+                break
+            if v.status == "unknown":
+                worst = "unknown"
+        if v.status != "sat" and worst == "unknown":
+            return inconclusive("unknown: " + what)
+    if v.status == "unsat":
+        return proved(what)
+    if v.status == "sat":
+        mv = smt.model_values(v.model, allv)
+        pl = dict(payload)
+        pl["values"] = {k: str(x) for k, x in mv.items()}
+        return violation(sig, what, pl)
+    return inconclusive("unknown: " + what)
+
+
+def vacuous_or_error(exc, pc, dom, what, item):
+    """A concretisation inside optyx is acceptable only where the reference
+    formula is undefined on the whole path (e.g. log(0.0) -> -inf)."""
+    from vf.engine import smt
+    try:
+        vac = smt.satisfiable(list(pc) + list(dom)) == "unsat"
+    except Exception:  # noqa: BLE001
+        vac = False
+    if vac:
+        return proved("vacuous (formula undefined on this path): " + what)
+    return harness_error(f"concretisation: {exc}", item=item)
+
+
+def build_recipe(recipe, val, bounds=None, domains=None):
+    b = Build(val, bounds=bounds, domains=domains)
+    for d in declare(recipe):
+        (b.V if d[0] == "vec" else b.M)(d)
+    k = kind_of(recipe)
+    return b, getattr(b, k)(recipe)
+
+
+def var_objects(b, names):
+    """optyx Variable objects for names (declared elements or fresh scalars)"""
+    return [b.S(("var", n)) for n in names]
+
+
+def safe_items(check_one, payload, show=repr):
+    import traceback
+    out = []
+    for r in payload:
+        try:
+            out += check_one(r)
+        except Exception as e:  # noqa: BLE001
+            out.append(harness_error(f"{type(e).__name__}: {e}", item=show(r)[:300], tb=traceback.format_exc()[-1500:]))
+    return out
